@@ -16,7 +16,9 @@ XML_NAME_CHARS = XML_NAME_START + list("0123456789-.")
 NAMES = ["dataset", "title", "creator", "para", "a", "b", "stmml:unit", "", "名前", "x y"]
 PREFIXES = ["eml", "stmml", "xsi", "p", "q", "é"]
 URIS = ["https://eml.ecoinformatics.org/eml-2.2.0", "http://www.xml-cml.org/schema/stmml-1.2", "http://www.w3.org/2001/XMLSchema-instance",
-        "urn:x", "u1", "u2", "http://example.org/ns?a=1&b=2", ""]
+        "urn:x", "u1", "u2", "http://example.org/ns?a=1&b=2", "",
+        # pairs that differ by a trailing slash, by case, by a fragment sign: different namespace names all the same
+        "http://purl.org/dc/terms", "http://purl.org/dc/terms/", "HTTP://purl.org/dc/terms", "http://purl.org/dc/terms#"]
 
 
 _VOCABULARY = []
